@@ -138,77 +138,84 @@ def parts_of(t):
     return list(t[1:]) if isinstance(t, tuple) and t and t[0] == "str" else None
 
 
+def eval_text(nf, variant, env, D):
+    a = {("var", "self"): ("variant", MV + variant)}
+    a.update(env)
+    v = hir.fold(nf, a, D)
+    if isinstance(v, tuple) and v and v[0] == "lit" and isinstance(v[1], str):
+        return v[1]
+    if not (isinstance(v, tuple) and v and v[0] == "str"):
+        return None
+    out = ""
+    for p in v[1:]:
+        if p[0] in ("ch", "s") and p[1][0] == "lit" and isinstance(p[1][1], str):
+            out += p[1][1]
+        else:
+            return None
+    return out
+
+
 def y2(ctx, F, D):
+    """Each move kind is recorded with its piece letter, origin file, capture mark, destination and promotion piece: the string-building
+    summary is folded for concrete field values and compared with the expected text."""
     pg = F.fn(PGN)
     nf = sym_fn(pg, F)
     ok = nf[0] == "match" and nf[1] == ("var", "self")
     ctx.check("C20.Y2", "summary-shape", ok, fn=PGN, file=pg["file"], line=pg["span"][0], nontrivial=False,
-              what="Move::pgn_notation is not a `match self` over the move kinds that can be summarised",
-              found=hir.fmt(nf, 200))
+              what="Move::pgn_notation is not a `match self` over the move kinds that can be summarised", found=hir.fmt(nf, 200))
     if not ok:
         return
+    S, E = SELF("start"), SELF("end")
     cap = ("call", "std::option::Option::<T>::is_some", (SELF("captured_piece"),))
+    letters = {"King": "K", "Queen": "Q", "Rook": "R", "Bishop": "B", "Knight": "N", "Pawn": ""}
     n = 0
-    # Normal
+
+    def env_for(r1, c1, r2, c2, captured):
+        return {col_of(S): ("lit", c1), row_of(S): ("lit", r1), col_of(E): ("lit", c2), row_of(E): ("lit", r2), cap: ("lit", captured)}
+    samples = [(0, 6, 2, 5), (6, 1, 4, 1), (3, 3, 4, 4), (7, 0, 0, 7)]
     for captured in (True, False):
-        arm = arm_of(nf, "Normal")
-        v = hir.fold(arm, {cap: ("lit", captured)}, D) if arm is not None else None
-        ps = parts_of(v)
-        good = False
-        if ps is not None:
-            exp_len = 5 if captured else 4
-            good = len(ps) == exp_len and ps[0] == ("s", ("call", "chess::piece::Piece::as_str_pgn", (SELF("piece"),))) \
-                and is_file_char(ps[1], col_of(SELF("start")))
-            rest = ps[2:]
-            if captured:
-                good = good and lit_ch(rest[0], "x")
-                rest = rest[1:]
-            good = good and len(rest) == 2 and is_file_char(rest[0], col_of(SELF("end"))) and is_rank_text(rest[1], row_of(SELF("end")))
+        bad = []
+        for kind, L in letters.items():
+            for (r1, c1, r2, c2) in samples:
+                env = env_for(r1, c1, r2, c2, captured)
+                env[("call", "chess::piece::Piece::as_str_pgn", (SELF("piece"),))] = ("lit", L)
+                got = eval_text(nf, "Normal", env, D)
+                want = L + chr(97 + c1) + ("x" if captured else "") + chr(97 + c2) + str(r2 + 1)
+                if got != want:
+                    bad.append((kind, (r1, c1, r2, c2), got, want))
         n += 1
-        ctx.check("C20.Y2", "Normal:%s" % ("capture" if captured else "quiet"), good, fn=PGN, file=pg["file"], line=pg["span"][0],
+        ctx.check("C20.Y2", "Normal:%s" % ("capture" if captured else "quiet"), not bad, fn=PGN, file=pg["file"], line=pg["span"][0],
                   what="a normal move must be recorded as piece letter, origin file, 'x' iff capture, destination file and rank",
-                  expected="[letter(piece), file(start), %sfile(end), rank(end)]" % ("'x', " if captured else ""),
-                  found=hir.fmt(v, 400) if v is not None else None)
-    # Promotion
-    for captured in (True, False):
-        arm = arm_of(nf, "Promotion")
-        v = hir.fold(arm, {cap: ("lit", captured)}, D) if arm is not None else None
-        ps = parts_of(v)
-        good = False
-        if ps is not None:
-            exp_len = 6 if captured else 5
-            good = len(ps) == exp_len and is_file_char(ps[0], col_of(SELF("start")))
-            rest = ps[1:]
-            if captured and good:
-                good = lit_ch(rest[0], "x")
-                rest = rest[1:]
-            good = good and len(rest) == 4 and is_file_char(rest[0], col_of(SELF("end"))) and \
-                is_rank_text(rest[1], row_of(SELF("end"))) and lit_ch(rest[2], "=") and \
-                rest[3][0] == "ch" and rest[3][1][0] == "match" and rest[3][1][1] == SELF("new_piece")
+                  expected="e.g. Ngf3 / exd5", found=bad[:3])
+        bad = []
+        for kind in ("Queen", "Rook", "Bishop", "Knight"):
+            for (r1, c1, r2, c2) in ((6, 4, 7, 3), (1, 0, 0, 1)):
+                env = env_for(r1, c1, r2, c2, captured)
+                env[SELF("new_piece")] = ("variant", PT + kind)
+                got = eval_text(nf, "Promotion", env, D)
+                want = chr(97 + c1) + ("x" if captured else "") + chr(97 + c2) + str(r2 + 1) + "=" + letters[kind]
+                if got != want:
+                    bad.append((kind, (r1, c1, r2, c2), got, want))
         n += 1
-        ctx.check("C20.Y2", "Promotion:%s" % ("capture" if captured else "quiet"), good, fn=PGN, file=pg["file"], line=pg["span"][0],
+        ctx.check("C20.Y2", "Promotion:%s" % ("capture" if captured else "quiet"), not bad, fn=PGN, file=pg["file"], line=pg["span"][0],
                   what="a promotion must be recorded as origin file, 'x' iff capture, destination, '=' and the piece promoted to",
-                  expected="[file(start), %sfile(end), rank(end), '=', letter(new_piece)]" % ("'x', " if captured else ""),
-                  found=hir.fmt(v, 400) if v is not None else None)
-    # En passant
+                  expected="e.g. exd8=Q", found=bad[:3])
     for owner, rank in (("White", "6"), ("Black", "3")):
-        arm = arm_of(nf, "EnPassant")
-        v = hir.fold(arm, {SELF("owner"): ("variant", PL + owner)}, D) if arm is not None else None
-        ps = parts_of(v)
-        good = ps is not None and len(ps) == 4 and is_file_char(ps[0], SELF("start_col")) and lit_ch(ps[1], "x") \
-            and is_file_char(ps[2], SELF("end_col")) and lit_ch(ps[3], rank)
+        bad = []
+        for c1, c2 in ((4, 3), (0, 1), (7, 6)):
+            got = eval_text(nf, "EnPassant", {SELF("owner"): ("variant", PL + owner), SELF("start_col"): ("lit", c1), SELF("end_col"): ("lit", c2)}, D)
+            want = chr(97 + c1) + "x" + chr(97 + c2) + rank
+            if got != want:
+                bad.append(((c1, c2), got, want))
         n += 1
-        ctx.check("C20.Y2", "EnPassant:%s" % owner, good, fn=PGN, file=pg["file"], line=pg["span"][0],
+        ctx.check("C20.Y2", "EnPassant:%s" % owner, not bad, fn=PGN, file=pg["file"], line=pg["span"][0],
                   what="an en-passant capture must be recorded as origin file, 'x', destination file and rank 6 (White) / 3 (Black)",
-                  expected="[file(start_col), 'x', file(end_col), '%s']" % rank, found=hir.fmt(v, 300) if v is not None else None)
-    # Castling
+                  expected="e.g. exd%s" % rank, found=bad[:3])
     for variant, text in (("CastlingShort", "O-O"), ("CastlingLong", "O-O-O")):
-        arm = arm_of(nf, variant)
-        s = hir.fmt(arm, 300) if arm is not None else ""
-        lits = [x for x in _lits(arm)] if arm is not None else []
+        got = eval_text(nf, variant, {}, D)
         n += 1
-        ctx.check("C20.Y2", variant, lits == [text], fn=PGN, file=pg["file"], line=pg["span"][0],
-                  what="castling must be recorded as %s" % text, expected=text, found=s)
+        ctx.check("C20.Y2", variant, got == text, fn=PGN, file=pg["file"], line=pg["span"][0],
+                  what="castling must be recorded as %s" % text, expected=text, found=got)
     ctx.floor("C20.Y2", "move-record cases", n, 8)
 
 
